@@ -86,7 +86,8 @@ class HSFZConnection:
         self.src_addr = src_addr
         self.dst_addr = dst_addr
         self.ack_timeout = ack_timeout
-        self._read_queue: asyncio.Queue[HSFZDiagFrame | int] = asyncio.Queue()
+        # None is put into the queue by close() in order to wake up pending readers
+        self._read_queue: asyncio.Queue[HSFZDiagFrame | int | None] = asyncio.Queue()
         self._read_task = asyncio.create_task(self._read_worker())
         self._read_task.add_done_callback(
             handle_task_error,
@@ -201,13 +202,17 @@ class HSFZConnection:
                 raise RuntimeError(f"unexpected frame: {frame}")
 
     async def read_frame(self) -> HSFZDiagFrame | int:
-        if self._closed:
-            if sys.platform != "win32":
-                raise OSError(errno.EBADFD)
-            else:
-                raise RuntimeError("connection already closed")
+        if not self._closed:
+            frame = await self._read_queue.get()
+            if frame is not None:
+                return frame
+            # The connection has been closed while waiting; keep the marker for other readers
+            self._read_queue.put_nowait(None)
 
-        return await self._read_queue.get()
+        if sys.platform != "win32":
+            raise OSError(errno.EBADFD)
+        else:
+            raise RuntimeError("connection already closed")
 
     async def read_diag_request(self) -> bytes:
         unexpected_packets = []
@@ -301,6 +306,8 @@ class HSFZConnection:
             return
 
         self._closed = True
+        # Nobody feeds the queue any more; wake up everybody who still waits for a frame
+        self._read_queue.put_nowait(None)
         self._read_task.cancel()
         self.writer.close()
         try:
